@@ -382,6 +382,8 @@ Proof.
       assert (In p (fam_pools f r)) by (unfold fam_pools; apply filter_In; split; auto; apply fam_eqb_spec; auto).
       specialize (H H0). cbv beta in H. rewrite Hv, N.eqb_refl, andb_true_r in H. unfold contains in H.
       destruct (slot_of (p_geom p) x); [discriminate|reflexivity]. }
+    destruct (pd_conflict Repaired f x vrf s r);
+      [intros [H|[]]; inversion H; subst r' ok; split; [apply step_ok_refl|intros; discriminate]|].
     destruct (sassoc (f, vrf, x) (statics r)) as [o|] eqn:Es.
     + intros [H|[]]. inversion H; subst r' ok. split; [apply step_ok_refl|].
       intros Ho. apply N.eqb_eq in Ho; subst o. right. split; auto.
@@ -1729,6 +1731,7 @@ Proof.
     exfalso. unfold reserve_cont in Ec.
     destruct (filter _ (fam_pools f r)) as [|c cs']; [|discriminate].
     change (d5 Repaired) with false in Ec. cbv iota in Ec.
+    destruct (pd_conflict Repaired f x vrf sid r); [discriminate|].
     destruct (sassoc (f, vrf, x) (statics r)); discriminate.
   - rewrite (Hok _ _ _ eq_refl). reflexivity.
 Qed.
